@@ -13,6 +13,7 @@ AllSpecs == { [t |-> "none"] } \cup { [t |-> "name", n |-> n] : n \in 0 .. 8 }
             \cup { [t |-> "gray", n |-> n] : n \in -1 .. 25 }
             \cup { [t |-> "bool", v |-> v] : v \in 0 .. 1 } \cup { [t |-> "float", v |-> v] : v \in {1, 7, 300} } \cup { [t |-> "obj"] }
             \cup { [t |-> "rgbl", r |-> r, g |-> g, b |-> b] : r \in {-1, 0, 5}, g \in {0, 6}, b \in {2, 5} }
+            \cup { [t |-> "badstr", i |-> i] : i \in 1 .. 8 }
 Repr == { [t |-> "none"], [t |-> "name", n |-> 0], [t |-> "name", n |-> 7], [t |-> "name", n |-> 8],
           [t |-> "int", v |-> 0], [t |-> "int", v |-> 255], [t |-> "int", v |-> 256], [t |-> "int", v |-> -1],
           [t |-> "rgb", r |-> 0, g |-> 0, b |-> 0], [t |-> "rgb", r |-> 5, g |-> 5, b |-> 5],
